@@ -148,6 +148,17 @@ CHECKS = {
                      'with another SPI / nonce / address or after a restart; initiator retries = same request with the newest '
                      'cookie first, ID 0, and complete, also after repeated challenges and an INVALID_KE_PAYLOAD round.',
                 note='behaviour at exactly the threshold and acceptance with two cookies are not asserted'),
+    'C15': dict(level='exploration', design='3 C15',
+                technique='Hypothesis-generated multi-connection configurations with stale kernel state, ACQUIRE scripts (C-encoded '
+                          'kernel events), in-flight overlaps and restarts; oracle = independent reading of the configuration for '
+                          'the SPD (model kernel fed by real netlink bytes), first-datagram destination / exchange type, and the '
+                          'CHILD_SA offer decrypted by the reference observer',
+                text='FLUSHPOLICY+FLUSHSA first, SPD == one out/in/fwd policy per entry with configured selectors, ports, protocol, '
+                     'mode, IPsec protocol, endpoints and index*8+1, SAD empty, close() flushes; each ACQUIRE goes to its '
+                     'connection\'s peer, re-uses an established IKE_SA, offers the entry\'s transforms in order, mode, selectors inside '
+                     'the entry covering the packet, lifetime within +5 s; overlapping ACQUIREs are not lost; unknown indices are '
+                     'ignored.',
+                note='a restart re-initialises every host of the scenario; policies of different entries are generated disjoint'),
 }
 
 NOT_YET = 'check not built yet in this session (planned, see DESIGN.md section 8)'
